@@ -113,6 +113,58 @@ def repeat_case(args) -> dict:
     return out
 
 
+def long_case(args) -> dict:
+    """Many epochs of a tiny split (anything that accumulates per epoch:
+    recursion depth, counters, buffers)."""
+    name, iface, sh, epochs = args
+    root = core.fresh_dir("c19l")
+    out = {"name": name, "bad": [], "streams": 0, "harness": None}
+    try:
+        from sedpack.io import Dataset
+        _, ref = dsfamily.build(root, name)
+        ds_ = Dataset(root)
+        split = "train"
+        one = D.ids(ds_, split, "sync")
+        N = len(one)
+        k = epochs * N + 1
+        kw = {"shuffle": sh}
+        if iface != "sync":
+            kw["file_parallelism"] = 2
+        desc = f"{name}/{split} {iface} {kw} over {epochs} epochs"
+        try:
+            got = D.with_alarm(300, lambda: [D.to_id(e) for e in D.take(
+                ds_, split, iface, k, **kw)])
+        except Exception as e:  # pylint: disable=broad-except
+            out["bad"].append(("raises", iface,
+                               f"{desc}: {type(e).__name__}: "
+                               f"{str(e)[:120]}"))
+            return out
+        out["streams"] += 1
+        if len(got) != k:
+            out["bad"].append(("finite", iface,
+                               f"{desc}: the repeating stream ended after "
+                               f"{len(got)} < {k} examples"))
+        elif set(got) - set(one):
+            out["bad"].append(("foreign", iface, f"{desc}: foreign examples"))
+        elif sh == 0 and got != [one[i % N] for i in range(k)]:
+            out["bad"].append(("period", iface,
+                               f"{desc}: not the one-pass sequence repeated"))
+        elif sh:
+            cnt = collections.Counter(got)
+            if max(cnt.values()) - min(cnt.values()) > max(
+                    4, 2 * sh + 4) or len(cnt) != N:
+                out["bad"].append(
+                    ("unbalanced", iface,
+                     f"{desc}: examples do not recur equally often: "
+                     f"{sorted(cnt.values())}"))
+    except Exception as e:  # pylint: disable=broad-except
+        out["harness"] = f"{type(e).__name__}: {e} " + traceback.format_exc(
+        )[-400:]
+    finally:
+        shutil.rmtree(root, ignore_errors=True)
+    return out
+
+
 def run(ctx):
     from vf import rustbuild
     rustbuild.ensure_ext()
@@ -136,6 +188,24 @@ def run(ctx):
         ctx.sample({"recipe": "flat", "split": "train", "iface": "rust",
                     "take": "3N+2", "oracle": "every block of N is a "
                                               "permutation of the split"})
+        E = 1300 if ctx.tier == "quick" else 5000
+        longs = [("flat", i, sh, E) for i in ("sync", "concurrent", "async")
+                 for sh in (0, 2)] + [("flat", "rust", 0, E),
+                                      ("npz", "concurrent", 3, E)]
+        nl = 0
+        for r in ex.map(long_case, longs):
+            if r["harness"]:
+                ctx.harness_error(f"long {r['name']}: {r['harness']}")
+                continue
+            nl += r["streams"]
+            for sym, iface, msg in r["bad"]:
+                ctx.violation({"engine": "dataset", "symptom": sym,
+                               "iface": iface, "long": True}, msg,
+                              {"kind": "long", "name": r["name"]})
+        ctx.part(f"{E} epochs of a tiny split (per-epoch accumulation)",
+                 streams=nl)
+        ctx.add(states=nl, transitions=nl * E,
+                traces_validated_against_impl=nl)
         dataset_mc.run_controlled(ctx, ex, TAGS, what="take")
     ctx.cov["exhaustive"] = True
     ctx.cov["explanation"] = (
@@ -156,5 +226,12 @@ def replay(case):
     if case.get("kind") == "controlled":
         return dataset_mc.replay(case)
     core.import_sedpack_quietly()
+    if case.get("kind") == "long":
+        bad = []
+        for i in ("sync", "concurrent", "async"):
+            for sh in (0, 2):
+                bad += [m for _, _, m in long_case((case["name"], i, sh,
+                                                    1300))["bad"]]
+        return bad
     r = repeat_case((case["name"], "quick"))
     return [m for _, _, m in r["bad"]]
